@@ -27,8 +27,9 @@ def cards_params(shape, allow_zero_max=False, star=False):
 
 
 def cards_conditions(prefix, modalias, func, shape_list, timeout, aspect, allow_zero_max=False, extra_validate=None,
-                     extra_args=''):
-    """One condition per shape (with >= 1 relation): all cardinalities symbolic."""
+                     extra_args='', flags=False):
+    """One condition per shape (with >= 1 relation): all cardinalities symbolic.
+    flags: additionally one symbolic Boolean per feature = its abstract marker (passed as abstract=[...])."""
     conds = []
     for si, shape in shape_list:
         rels = R.relations_of(shape)
@@ -39,10 +40,19 @@ def cards_conditions(prefix, modalias, func, shape_list, timeout, aspect, allow_
         val = [tuple(x for c in R.default_cards(shape) for x in c)]
         val.append(tuple(x for (p, cs) in rels for x in (len(cs), len(cs))))
         val.append(tuple(x for (p, cs) in rels for x in (0, len(cs))))
+        xargs = extra_args
+        symbolic = 'all (min,max) pairs'
+        if flags:
+            n = R.n_features(shape)
+            params += ', ' + ', '.join('g%d: bool' % i for i in range(n))
+            xargs += ', abstract=[%s]' % ', '.join('g%d' % i for i in range(n))
+            pats = [tuple(False for i in range(n)), tuple(i % 2 == 0 for i in range(n)), tuple(True for i in range(n))]
+            val = [v + pats[j % 3] for j, v in enumerate(val)] + [val[0] + pats[2], val[1] + pats[0]]
+            symbolic += ', the abstract marker of every feature'
         conds.append(Cond(
             name='%s_%d' % (prefix, si), imports=imp, params=params, pre=pre,
-            body='P.%s(SHAPE_%d, %s%s)' % (func, si, cards, extra_args), timeout=timeout, aspect=aspect,
-            sample={'shape': R.shape_str(shape), 'symbolic': 'all (min,max) pairs', 'relations': len(rels)},
+            body='P.%s(SHAPE_%d, %s%s)' % (func, si, cards, xargs), timeout=timeout, aspect=aspect,
+            sample={'shape': R.shape_str(shape), 'symbolic': symbolic, 'relations': len(rels)},
             validate=val))
     return conds
 
@@ -139,10 +149,16 @@ def _same_result(a, b) -> bool:
 
 
 def result_twice(op, m):
-    """Execute the operation object twice on the model and return the result of the *second* execution;
+    """Execute the operation object on another model first, then twice on the model, and return the result of the *second* execution;
     the first must have been the same (an operation object may be re-used: its result depends on the model
     of the current execution only). Callers compare the returned value with the definition."""
     import copy
+    # history: the operation object has analysed ANOTHER model before (same feature names F0.., other tree);
+    # nothing of that execution may survive into the results below
+    try:
+        op.execute(R.build((((), ()), ()), [(1, 2), (0, 1)])).get_result()
+    except Exception:  # the primer is not the subject (e.g. an operation configured with a feature of m)
+        pass
     r1 = op.execute(m).get_result()
     keep = copy.copy(r1) if isinstance(r1, (list, dict, set)) else r1
     if isinstance(r1, list):
